@@ -27,7 +27,7 @@ ASSUMPTIONS = ["grid only", "c = 64 in all rounding bounds; strict positive defi
 TRUSTED = ["numpy.linalg.eigvalsh float64"]
 EXHAUSTIVE = True
 CC = 64.0
-ROOTS = [Fraction(1), Fraction(2), Fraction(4), Fraction(3, 2)]
+ROOTS = [Fraction(1), Fraction(2), Fraction(4), Fraction(3, 2), Fraction(1, 2), Fraction(2, 3)]  # any positive rational root
 EPS_REL = {"f32": [1e-1, 1e-3, 1e-6], "f64": [1e-1, 1e-6, 1e-10]}
 SPECTRA = ["zero", "rankdef", "neg3", "neg6", "neg9", "allneg"]
 
@@ -58,7 +58,8 @@ def cases(tier):
             bases = mx.BASES if n > 1 else ["identity"]
             if n >= 16:
                 bases = ["givens", "dct", "identity"]
-            for sp, b, scale, er in itertools.product(SPECTRA, bases, [1e-4, 1.0, 1e4], EPS_REL[dtype]):
+            scales = [1e-4, 1.0, 1e4] + ([1e-40] if dtype == "f64" and n <= 4 else [])  # 1e-40: epsilon far below float32's range
+            for sp, b, scale, er in itertools.product(SPECTRA, bases, scales, EPS_REL[dtype]):
                 if tier == "quick" and n >= 8 and scale != 1.0:
                     continue
                 yield dict(n=n, dtype=dtype, sp=sp, basis=b, scale=scale, eps_rel=er)
@@ -96,12 +97,16 @@ def check_input(torch, c, stats):
         for stab in (False, True):
             case = dict(c, root=[r.numerator, r.denominator], stab=stab)
             cfgobj = EigenConfig(enhance_stability=stab)
+            A_in = A.clone()
             try:
                 X = mf.matrix_inverse_root(A, root=r, root_inv_config=cfgobj, epsilon=eps)
             except Exception as e:
                 out.append((case, f"raised {type(e).__name__}: {str(e)[:100]}"))
                 continue
             stats["calls"] = stats.get("calls", 0) + 1
+            if not torch.equal(A, A_in):
+                out.append((case, "the routine modified its input matrix in place"))
+                A.copy_(A_in)
             Xn = X.double().numpy()
             if X.shape != A.shape:
                 out.append((case, f"result has shape {tuple(X.shape)}"))
